@@ -344,7 +344,7 @@ fn closure_body(p: &mut Parser) {
 }
 
 pub fn match_arm_list(p: &mut Parser) {
-    assert!(p.at(T!['{']));
+    assert!(p.at_current(T!['{']));
     let m = p.open();
     p.expect(T!['{']);
     while !p.eof() && !p.at(T!['}']) {
@@ -368,7 +368,7 @@ fn match_arm(p: &mut Parser) {
 }
 
 fn struct_literal_field_list(p: &mut Parser) {
-    assert!(p.at(T!['{']));
+    assert!(p.at_current(T!['{']));
     let m = p.open();
     p.expect(T!['{']);
     while !p.eof() && !p.at(T!['}']) {
@@ -384,7 +384,7 @@ fn struct_literal_field_list(p: &mut Parser) {
 }
 
 fn struct_literal_field(p: &mut Parser) {
-    assert!(p.at(T![ident]));
+    assert!(p.at_current(T![ident]));
     let m = p.open();
     p.expect(T![ident]);
     if p.eat(T![:]) {
@@ -490,7 +490,7 @@ fn expr_bp(p: &mut Parser, min_bp: u8) -> Option<MarkerClosed> {
 
 // ArgList = '(' Arg* ')'
 pub fn arg_list(p: &mut Parser) {
-    assert!(p.at(T!['(']));
+    assert!(p.at_current(T!['(']));
     let m = p.open();
     p.expect(T!['(']);
     while !p.at(T![')']) && !p.eof() {
